@@ -4,7 +4,7 @@ Driver ops for C16 (model component FileFilter).
   ffilter <opts> <r> <lines>          -> `-` | `L1,B2,X7,…`     (FileFilter::create)
   ffapply <opts> <r> <lines> <cov>    -> <cov>                   (the loop of rewrite_paths)
 
-  fflines x<src>                      -> `x<piece>,x<piece>,…`   (split('\n') + strip_suffix('\r'))
+  fflines x<src>                      -> `x<piece>,x<piece>,…`   (strip_suffix LF, split LF, strip_suffix CR)
                                          followed by ` <realLines>`
   ffsrc <opts> x<m1> … x<m6> x<src>   -> as ffilter: `createSrc` with six LITERAL markers (substring
                                          match), the model splitting the text itself
@@ -65,7 +65,7 @@ def handleFFLines : List String → String
   | [src] =>
     match xarg src with
     | some b =>
-      joinWith "," ((splitLF b).map fun p => "x" ++ toHex (stripCR p)) ++ s!" {realLines b}"
+      joinWith "," ((splitSrc b).map fun p => "x" ++ toHex (stripCR p)) ++ s!" {realLines b}"
     | none => "bad-op"
   | _ => "bad-op"
 
